@@ -10,7 +10,10 @@ Sc(kind, type, flow, slow, n) == [kind |-> kind, type |-> type, flow |-> flow, s
 ATasks == {Sc("atask", t, f, s, 1) : t \in Types, f \in AFlows, s \in BOOLEAN}
 Asyncs == {Sc("async", t, f, s, 1) : t \in Types \ {"slowctor"}, f \in FFlows, s \in BOOLEAN}
 Bursts == {Sc("burst", t, "idle", s, n) : t \in {"int", "vector"}, s \in BOOLEAN, n \in {1, 10, 1000, 30000}}
-Scenarios == ATasks \cup Asyncs \cup Bursts
+\* a scheduled closure that schedules n further closures itself (on the Internal backend some of them then run nested
+\* inside the parent once the thread's task pipe is full, i.e. for n > 256)
+Nested == {Sc("nested", "vector", "idle", s, n) : s \in BOOLEAN, n \in {10, 600, 3000}}
+Scenarios == ATasks \cup Asyncs \cup Bursts \cup Nested
 ASSUME PrintT(<<"SCENARIOS", Cardinality(Scenarios)>>)
 ASSUME ndJsonSerialize(IOEnv.OUT, SetToSeq(Scenarios))
 VARIABLE x
